@@ -40,7 +40,8 @@ theorem leader_fields (f : Spec.K7.SFile) :
     decided on the upper-cased extension of the base name -/
 theorem kind_mode_table (src : Str) (dp : Nat) (h : rfindFrom 46 src (afterLast 47 src) = some dp) :
     ((classify src).1.kind, (classify src).1.mode) = Spec.K7.kindMode (upper (src.drop (dp + 1))) := by
-  unfold classify
+  show ((classifyRaw src).1.kind, (classifyRaw src).1.mode) = _
+  unfold classifyRaw
   simp only [h]
   unfold Spec.K7.kindMode
   have e1 : str "BAS,A" = [66, 65, 83, 44, 65] := by decide
@@ -57,7 +58,7 @@ theorem kind_mode_table (src : Str) (dp : Nat) (h : rfindFrom 46 src (afterLast 
 
 theorem kind_mode_no_extension (src : Str) (h : rfindFrom 46 src (afterLast 47 src) = none) :
     (classify src).1.kind = 2 ∧ (classify src).1.mode = 0 ∧ (classify src).1.ext = [] := by
-  unfold classify; simp [h]
+  unfold classify classifyRaw; simp [h]
 
 theorem allRaw_eq_frames (w : World) (srcs : List Str) :
     allRaw w srcs = ((srcs.map (specFile w)).flatMap Spec.K7.fileBlocks).map (fun b => Spec.K7.frame b.1 b.2) := by
